@@ -97,6 +97,25 @@ def run(repo, rep, tier):
     # (C16 owns the loader)
     from . import c16 as _c16
     L.borrow(repo, rep, "R12.2", "C16", _c16._loader, ("config-undivided",))
+    # the engine hands the expression's own text and its settings on to the
+    # compiler in their places; the copy of an exception is allocated as an
+    # instance of the decorated class
+    pf = repo.func("chameleon.compiler.ExpressionEngine.parse")
+    gc_ = [c for c in ast.walk(pf.node) if isinstance(c, ast.Call)
+           and src(c.func) == "self.get_compiler"]
+    rep.check(bool(gc_) and all(
+        [src(a) for a in c.args] == ["expression", "string", "handle_errors",
+                                     "char_escape"] for c in gc_), "R12.1",
+        pf.qualname, "parse() passes (expression, string, handle_errors, "
+        "char_escape) to the compiler factory in this order",
+        construct="parse-forwards", where=L.where(pf))
+    cf = repo.func("chameleon.utils.create_formatted_exception")
+    al = [c for c in ast.walk(cf.node) if isinstance(c, ast.Call)
+          and src(c.func) in ("allocator", "BaseException.__new__")]
+    rep.check(len(al) >= 2 and all(c.args and src(c.args[0]) == "new"
+                                   for c in al), "R12.5", cf.qualname,
+              "both allocations make an instance of the decorated class",
+              construct="allocated-as-decorated-class", where=L.where(cf))
     L.state_rule(repo, rep)
 
 
